@@ -437,14 +437,33 @@ impl Exec {
         }
     }
 
-    /// join everything that finished (called by the runner after a successful execution)
-    pub fn finish(&mut self) {
-        for h in self.th_handles.drain(..) {
+    /// join everything that finished (called by the runner after a successful execution). The join
+    /// itself is under the quiescence oracle too: an actor whose body has ended but whose handle
+    /// never reports completion is a stranded join, not a harness hang.
+    pub fn finish(&mut self) -> Res {
+        let th: Vec<std::thread::JoinHandle<()>> = self.th_handles.drain(..).collect();
+        let co: Vec<may::coroutine::JoinHandle<()>> = self.co_handles.drain(..).collect();
+        let r = {
+            let (th, co) = (&th, &co);
+            self.wait_cond(&|| th.iter().all(|h| h.is_finished()) && co.iter().all(|h| h.is_done()))
+        };
+        if let Err(e) = r {
+            let nco = co.iter().filter(|h| !h.is_done()).count();
+            let nth = th.iter().filter(|h| !h.is_finished()).count();
+            std::mem::forget(th);
+            std::mem::forget(co);
+            return Err(match e {
+                Fail::Stranded(m) => Fail::Stranded(format!("every actor body has ended but {} coroutine handle(s) never report is_done() and {} thread(s) never finish; {}", nco, nth, m)),
+                o => o,
+            });
+        }
+        for h in th {
             let _ = h.join();
         }
-        for h in self.co_handles.drain(..) {
+        for h in co {
             let _ = h.join();
         }
+        Ok(())
     }
 }
 
